@@ -95,7 +95,12 @@ class ExceptionRetryPolicy(RetryPolicy):
         return False
 
     def sleep_time(self, attempt, future):
-        return min(self._sleep * (self._exponent ** (attempt - 1)), self._max_sleep)
+        try:
+            delay = self._sleep * (self._exponent ** (attempt - 1))
+        except OverflowError:
+            # exponent ** n no longer fits a float: way beyond max_sleep
+            delay = self._max_sleep
+        return min(delay, self._max_sleep)
 
 
 class RetryJob(object):
